@@ -25,7 +25,7 @@ class Obligation:
     def __init__(self, name, fn, *, code=(), bounds='', native='auto', claim_doc='',
                  max_paths=20000, query_timeout_ms=10000, wall_s=150, hard_s=None,
                  concretize_cap=64, tiers=('quick', 'thorough'), stop_on_violation=True, oneshot='auto',
-                 shims=(), outside='', min_paths=1, kind='symbolic', shards=1, backend='z3'):
+                 shims=(), outside='', min_paths=1, kind='symbolic', shards=1, backend='z3', split_input=None):
         self.name = name
         self.fn = fn
         self.code = list(code)
@@ -48,6 +48,9 @@ class Obligation:
         self.backend = backend
         self.init_stack = None
         self.split = None
+        # (input name, k): the declared range of that integer input / choice is cut into k consecutive parts, one worker each
+        self.split_input = split_input
+        self.narrow = None
 
 
 # ---------------------------------------------------------------------------
@@ -94,6 +97,7 @@ def _explore(ob, prop, known, conn):
         ex = core.Explorer(max_paths=ob.max_paths, query_timeout_ms=ob.query_timeout_ms,
                            concretize_cap=ob.concretize_cap, wall_s=ob.wall_s,
                            stop_on_violation=ob.stop_on_violation, oneshot=ob.oneshot, backend=ob.backend)
+        ex.narrow = ob.narrow or {}
         kn = [k for k in known if k.get('obligation') in (None, ob.name, ob.name.split('#')[0])]
         ex.known = kn
         ex.known_hits = {}
@@ -234,6 +238,19 @@ def expand_shards(obs, prop, known, jobs):
     import copy
     out = []
     splitters = []
+    ranged = []
+    for ob in obs:
+        if ob.split_input:
+            nm, k = ob.split_input
+            for i in range(k):
+                sh = copy.copy(ob)
+                sh.name = '%s#r%d/%d' % (ob.name, i + 1, k)
+                sh.narrow = {nm: (i, k)}
+                sh.split_input = None
+                ranged.append(sh)
+        else:
+            ranged.append(ob)
+    obs = ranged
     for ob in obs:
         if ob.shards <= 1:
             out.append(ob)
